@@ -19,9 +19,9 @@ CLAIMED = {
               "(b) an inventory of the 70 explicit panic sites reachable from reply() with their disposition, re-scanned "
               "on every run."),
         design="DESIGN.md section 5, C01",
-        note=("The theorem carries the hypothesis udp_replies_short (every datagram reply fits the 16-bit UDP length "
-              "field), whose discharge by the amplification bound for 4096-byte frames is in progress; the monitor checks "
-              "it on every executed case. Not exhibited by the model: memory exhaustion of the ever-growing table, stack, "
+        note=("The closed theorems take env_small (dumped constants shorter than 2048 bytes, re-decided per run) "
+              "and a date string of at most 64 bytes, from which the amplification bound (reply <= 7*|request| + 4500 bytes) "
+              "discharges the 16-bit UDP length conversion. Not exhibited by the model: memory exhaustion of the ever-growing table, stack, "
               "closed stdout, a clock before 1970, panics inside dependencies on unmodelled paths. Ten panic defects found "
               "this way were repaired in /repo (see known_findings.txt)."),
         technique="Coq invariant + totality theorem over the Panic-explicit model + dev/release outcome correspondence + panic-site inventory"),
@@ -62,9 +62,10 @@ CLAIMED = {
               "the implementation's real frames."),
         design="DESIGN.md section 5, C04",
         note=("Trusted: Coq kernel, extraction + OCaml driver, harness; correspondence is testing; pnet checksum/accessor "
-              "semantics modelled. The theorem takes 'emitted frame consists of octets and is shorter than 64 KiB' as "
-              "hypotheses on the emitted frame; their discharge for received frames <= 4096 bytes (amplification bound) "
-              "is work in progress (Proofs/ReplyBytes.v) and is checked on every executed case by the monitor."),
+              "semantics modelled. C04_wellformed_unconditional discharges 'emitted frame consists of octets and is shorter than "
+              "64 KiB' for received frames <= 4096 octets (amplification bound 7*|request| + 4500, constants < 2048 bytes, "
+              "SMB blobs octets: env_small / env_blobs_ok, re-decided per run); for longer received frames the two facts "
+              "remain hypotheses of C04_wellformed."),
         technique="Coq theorem (checksum algebra + decode-after-encode laws over the factorised pipeline) + model/implementation correspondence"),
     "C05": dict(
         text=("Coq theorem over the model of reply(): an ARP request (op 1) for a handled IPv4 address gets an Ethernet/IPv4 "
